@@ -562,6 +562,17 @@ fn history_layer(o: &Opts, model: &mut Model, rep: &mut Report, only: Option<&st
             obs.push((lines.len(), t2, port, el2, true));
             lines.push(format!("trace {:x} i{:04x}", t2, port));
         }
+        // … and a timed *write* to the latch itself (the value it already holds: accepted without effect, or ignored
+        // by the lock — a port cycle either way), through the canonical address and through an alias
+        for (k, port) in [0x7FFDu16, 0x3FFD, 0x00FD, 0x7FFD].iter().enumerate() {
+            let t = base + (9 + k) * (line + 1) + 3 * k;
+            e.verif_set_frame_clocks(t);
+            let cur = e.verif_paging().0;
+            e.verif_write_io(*port, cur);
+            let el = e.verif_frame_clocks() - t;
+            obs.push((lines.len(), t, *port, el, true));
+            lines.push(format!("trace {:x} i{:04x}", t, port));
+        }
         let answers = model.ask_many(&lines);
         rep.count("cases", "paging history + timed cycles");
         let hist_text = hist.iter().map(|v| format!("{:02x}", v)).collect::<Vec<_>>().join(",");
@@ -599,7 +610,7 @@ write; high byte in every window x bit 0) at every interesting frame T-state (wi
 columns of lines 1 and 191, before/after the picture, frame end wrap, 200 random) on the 48K and on the 128K with every bank \
 0-7 paged at 0xC000; whole instructions (all 1792 encodings plus hand-picked operand variants) executed by the real \
 Z80 in the real Emulator with random placement of code, stack, HL/BC/DE/IX/IY, I in contended/uncontended memory at random \
-interesting T-states, the bus-cycle trace taken from the real Z80 on a recording bus; and timed memory/port cycles in every window after seeded histories of paging writes (locking writes, writes after the lock) on the 128K; and whole-machine lock-step runs of random programs (4-20 instructions, random CPU state, placement and paging) of the real Emulator against the Lean Z80 reference running on the Lean Spectrum bus, everything compared after every instruction. distinct/non-trivial = distinct \
+interesting T-states, the bus-cycle trace taken from the real Z80 on a recording bus; and timed memory/port cycles in every window after seeded histories of paging writes (locking writes, writes after the lock) on the 128K, a timed write to the latch port itself included; and whole-machine lock-step runs of random programs (4-20 instructions, random CPU state, placement and paging) of the real Emulator against the Lean Z80 reference running on the Lean Spectrum bus, everything compared after every instruction. distinct/non-trivial = distinct \
 (machine, cycle kind or opcode, delay, T mod 8) among delayed cases".into();
     let mut model = Model::spawn(&o.model, "C04");
     let mut batch = vec![];
